@@ -44,6 +44,7 @@ def cases(tier, seed):
         ((3, 2, 5, 9), (2, 2, 4, 8)),   # time start != space start
         ((2, 2, 4, 8), (3, 1, 4, 6)),
         ((2, 1, 3, 4), (4, 2, 5, 8)),
+        ((2, 2, 4, 5), (3, 2, 4, 6)),   # free slots (3) not a multiple of the selected size (2): exhausted after one step
     ]
     for (kind, dim) in (("ode", 0), ("statio", 2), ("nonstatio", 2), ("statio", 1), ("nonstatio", 1)):
         for li, land in enumerate(LANDS):
@@ -51,7 +52,7 @@ def cases(tier, seed):
                 for key in keys:
                     if dim == 1 and (li > 0 or si > 1):
                         continue
-                    if tier == "quick" and (li + si) % 2 and kind != "nonstatio":
+                    if tier == "quick" and (li + si) % 2 and kind != "nonstatio" and si != 4:
                         continue
                     cfg = dict(kind=kind, dim=dim, start=0 if si % 2 == 0 else 1, every=1 if li != 1 else 2, key=key, **land)
                     if kind in ("ode", "nonstatio"):
